@@ -84,7 +84,9 @@ def run(ctx):
                            "msg": f"a={a!r}, c={c!r} outside the domain accepted"}, {"a": a, "c": c})
         except ValueError:
             pass
-    for t in (-1e-9, 1 + 1e-9, -1.0, 2.0):
+    # outside [0, 1] by any amount, down to one ulp and to the smallest subnormal
+    import numpy as _np
+    for t in (-1e-9, 1 + 1e-9, -1.0, 2.0, -1e-17, -1e-300, float(_np.nextafter(0.0, -1.0)), float(_np.nextafter(1.0, 2.0)), float("nan"), float("inf")):
         ctx.case(("TruncatedTetrahedronFamily", t))
         try:
             coxeter.families.TruncatedTetrahedronFamily.get_shape(t)
